@@ -31,6 +31,9 @@ type World struct {
 	M   *simtikv.Model
 	// onStoreHB is called before (phase 0) and after (phase 1) every store heartbeat RPC
 	onStoreHB func(store uint64, phase int, lowSpace bool)
+	// restarting is set while the profile itself restarts PD (otherwise a new server object means the supervisor
+	// restarted PD after a panic, and the run stops: every handle the world holds points into the dead process)
+	restarting bool
 }
 
 type worldOpts struct {
@@ -81,6 +84,12 @@ func newWorld(rc *corepkg, o worldOpts) *World {
 	}
 	w := &World{RC: rc, E: e, L: l, Srv: l.Srv, M: simtikv.New(rc.Knob("num_keys", 3)*40+8, 1000000)}
 	w.M.StoreVersion = o.storeVersion
+	rc.S.AddMonitor(func() {
+		if !w.restarting && w.L.Srv != w.Srv {
+			rc.Note("the PD process was restarted by the supervisor after a panic: run stopped")
+			rc.S.Stop("pd-process-restarted")
+		}
+	})
 	w.Cl = l.Srv.GetRaftCluster()
 	if w.Cl == nil {
 		rc.Anomaly("raft cluster not running after bootstrap")
